@@ -40,7 +40,7 @@ SCOPE = {
                   orders="one", explore={"topo": 1200, "interpod": 200}),
     # every archetype takes part in a 3-pod scope (a: core, d: spread policies, e: namespaces / hostname / limited affinity); b: all pairs x all
     # layouts with a third NodeClaim; c: four pods
-    "thorough": dict(mc=["NPods = 3  Archs = {1,3,4,5,6,7,9,10,11}  Layouts = {0,1,2,3,4}  MaxClaims = 2",
+    "thorough": dict(mc=["NPods = 3  Archs = {1,3,4,5,6,7,9,10,11}  Layouts = {0,1,2,3}  MaxClaims = 2",
                          "NPods = 2  Archs = %s  Layouts = %s  MaxClaims = 3" % (ALL_ARCHS, ALL_LAYOUTS),
                          "NPods = 4  Archs = {3,6,7}  Layouts = {0,3}  MaxClaims = 2",
                          "NPods = 3  Archs = {8,12,13,14,18,22}  Layouts = {5,6,7}  MaxClaims = 2",
